@@ -71,7 +71,7 @@ def run(tier):
     log("[C14] %d enumerated + %d simulated behaviours from TLC" % (len(behs), len(sims)))
 
     batches = []
-    fams = [("empty0", "short"), ("marker", "marker"), ("prefix", "sized")]
+    fams = [("empty0", "short"), ("marker", "marker"), ("prefix", "sized"), ("be4", "big40k")]
     if thorough:
         fams += [("be4", "zeros"), ("nonutf8", "sized"), ("long", "marker")]
     small_vals = ["EMPTY", "vA", "vB"]
